@@ -26,6 +26,7 @@ pub fn all() -> Vec<CheckDef> {
                     strategy: |_| rcgen::free_case(rcgen::W_STRONG, 4, 30, 8, SITES_RC),
                     cases: |t| t.pick(24_000, 240_000),
                 },
+                Family { name: "roles-reader-mutators-collector", strategy: |_| rcgen::role_case(20, 10, SITES_RC), cases: |t| t.pick(16_000, 160_000) },
                 Family { name: "T2-upgrade-vs-last-drop", strategy: |_| templates::t2(), cases: |t| t.pick(12_000, 120_000) },
                 Family { name: "T1-two-owner-cascade", strategy: |_| templates::t1(), cases: |t| t.pick(4_000, 40_000) },
                 Family { name: "T4-upgrade-racing-cascade", strategy: |_| templates::t4(), cases: |t| t.pick(12_000, 120_000) },
@@ -45,6 +46,7 @@ pub fn all() -> Vec<CheckDef> {
                     strategy: |_| rcgen::free_case(rcgen::W_STRONG, 4, 30, 8, SITES_RC),
                     cases: |t| t.pick(20_000, 200_000),
                 },
+                Family { name: "roles-reader-mutators-collector", strategy: |_| rcgen::role_case(20, 10, SITES_RC), cases: |t| t.pick(30_000, 300_000) },
                 Family { name: "T1-two-owner-cascade", strategy: |_| templates::t1(), cases: |t| t.pick(40_000, 400_000) },
                 Family { name: "T2-upgrade-vs-last-drop", strategy: |_| templates::t2(), cases: |t| t.pick(4_000, 40_000) },
                 Family { name: "T3-reader-on-chain-harris-unlink", strategy: |_| templates::t3(), cases: |t| t.pick(16_000, 160_000) },
@@ -52,7 +54,7 @@ pub fn all() -> Vec<CheckDef> {
                 Family { name: "T5-install-into-unlinked-node", strategy: |_| templates::t5(), cases: |t| t.pick(12_000, 120_000) },
             ],
             exec: rcworld::exec,
-            rule: "free programs and templates (reader / unlinker / stalled dropper / collector); non-trivial = an object was destructed while another thread was inside a critical section in which it holds at least one snapshot (the O-snap oracle was evaluated against a non-empty holding set of a peer); distinct = distinct hash of the case",
+            rule: "free programs and templates (reader / unlinker / stalled dropper / collector); non-trivial = (a) an object was destructed while another thread was inside a critical section in which it holds at least one snapshot (the O-snap oracle was evaluated against a non-empty holding set of a peer), or (b) collection rounds ran while some object had no definite strong owner left and was protected only by a peer's snapshot; distinct = distinct hash of the case",
             timeout_s: t60,
             assumptions: vec![ASSUME_SC, ASSUME_HOOKS],
             shards: s16,
@@ -195,9 +197,9 @@ pub fn all() -> Vec<CheckDef> {
         },
         CheckDef {
             id: "C06",
-            families: vec![Family { name: "structures", strategy: seq::c06_strategy, cases: |t| t.pick(12_000, 24_000) }],
+            families: vec![Family { name: "structures", strategy: seq::c06_strategy, cases: |t| t.pick(40_000, 60_000) }],
             exec: seq::exec_c06,
-            rule: "chains, binary trees, combs (spine first and leaf first) and spines with twigs of n nodes (log-uniform up to 20 000 quick / 1 000 000 thorough), links stamped within a band of <=3 epochs or unstamped, head dropped when the band is 3..40 epochs old, flush delayed by 0..20 foreign epoch advances, epoch alignment 0..47, optional externally held node; oracle: all unreachable nodes destructed within 40 + 16*ceil(n/1024) epoch advances after the flush, held sub-structure intact. Non-trivial = n >= 64; distinct = distinct hash of the case",
+            rule: "chains, binary trees, combs (spine first and leaf first) and spines with twigs of n nodes (log-uniform up to 20 000 quick / 1 000 000 thorough), links stamped within a band of <=3 epochs or unstamped, head dropped when the band is 3..40 epochs old, flush delayed by 0..20 foreign epoch advances, epoch alignment 0..47, optionally one externally held node at a generated position and/or every node whose id is r modulo m held (e.g. every leaf of a comb); oracle: all unreachable nodes destructed within 40 + 16*ceil(n/1024) epoch advances after the flush, held sub-structure intact. Non-trivial = n >= 64; distinct = distinct hash of the case",
             timeout_s: |t| t.pick(120, 600),
             assumptions: vec![ASSUME_HOOKS, "the bound's constants (40, 16 per 1024 nodes) are deliberately loose: with 4-bit stamps up to 12 of every 16 epochs can look 'too recent' for the stamp residues this generator produces, see DESIGN.md 6/C06; the property is the shape of the bound"],
             shards: s16,
@@ -308,9 +310,12 @@ pub fn all() -> Vec<CheckDef> {
         },
         CheckDef {
             id: "C18",
-            families: vec![Family { name: "list-histories", strategy: |_| queuelist::list_strategy(), cases: |t| t.pick(60_000, 600_000) }],
+            families: vec![
+                Family { name: "list-histories", strategy: |_| queuelist::list_strategy(), cases: |t| t.pick(60_000, 600_000) },
+                Family { name: "registry-churn", strategy: |_| ebrworld::free(ebrworld::EW_CHURN, 4, 10, 14), cases: |t| t.pick(60_000, 600_000) },
+            ],
             exec: queuelist::exec_c18,
-            rule: "2-4 scheduled threads, <=8 ops each (insert, logical delete once by the owner or of a prefilled element, full traversal) on the collector's internal intrusive list type, with preemption inside insert's CAS loop, the iterator's unlink CAS and the delete mark. Oracle: a traversal that completed without reporting a stall visited every element whose insert had returned before the traversal was invoked and whose delete was not invoked before it returned; no element is visited before its insert was invoked; after deleting everything and clean-up traversals every element was finalized exactly once and the list is empty. Non-trivial = a traversal overlapped both an insert and a delete; distinct = distinct hash of the case",
+            rule: "2-4 scheduled threads, <=8 ops each (insert, logical delete once by the owner or of a prefilled element, full traversal) on the collector's internal intrusive list type, with preemption inside insert's CAS loop, the iterator's unlink CAS and the delete mark. Oracle: a traversal that completed without reporting a stall visited every element whose insert had returned before the traversal was invoked and whose delete was not invoked before it returned; no element is visited before its insert was invoked; after deleting everything and clean-up traversals every element was finalized exactly once and the list is empty. Second family (registry-churn): 2-4 scheduled threads with short pin/round/defer programs on the default collector that exit (unregister) at generated points while others traverse the real participant registry inside try_advance; an epoch advancement that leaves a registered pinned participant more than one epoch behind has overlooked it. Non-trivial = a traversal overlapped both an insert and a delete (first family); a thread exited while a peer was pinned and the epoch advanced while some thread was pinned (second family); distinct = distinct hash of the case",
             timeout_s: t60,
             assumptions: vec![ASSUME_SC, ASSUME_HOOKS],
             shards: s16,
